@@ -22,7 +22,7 @@ PLAN = dict(
           "'pattern:pkgpath', words only, or a word where the path belongs -, bad PKG_LOCATION, invalid "
           "UTF-8 in an ignored line) or a hard I/O error at the k-th refill of the reader for every k. "
           "Non-trivial = a fault-free document with >= 2 records, any document with a fault, or an I/O "
-          "error inside the input; distinct = distinct document bytes (x fault position) by 64-bit fingerprint. Later additions: 'fat' records of 20-170 lines; invalid dependencies that are siblings of a valid one in the same list; reader errors of eight different kinds. Round 7: line pools - for each of five keys every document of three (thorough four) records whose bodies are sequences of at most two lines over four fixed lines. Round 9: known keys with NUL, 0x01, DEL, a zero-width space or a byte-order mark glued on as unknown keys."),
+          "error inside the input; distinct = distinct document bytes (x fault position) by 64-bit fingerprint. Later additions: 'fat' records of 20-170 lines; invalid dependencies that are siblings of a valid one in the same list; reader errors of eight different kinds. Round 7: line pools - for each of five keys every document of three (thorough four) records whose bodies are sequences of at most two lines over four fixed lines. Round 9: known keys with NUL, 0x01, DEL, a zero-width space or a byte-order mark glued on as unknown keys. Round 10: every printable key one bit, or one bit in each of two neighbouring bytes, away from each known key, in a record next to the real key with another value; valid dependency items with a ':' appended or prepended as the invalid item."),
     assumptions=[
         "the by-construction model in harness/src/oracle/scan.rs is a faithful reading of the statement",
         "expected Depend / PkgPath / PkgName values are obtained from Depend::new / PkgPath::new / PkgName::new on the item (their own behaviour is C19 / C18)",
